@@ -324,7 +324,8 @@ def wrap_with_field(node: CSSValue, config: Config, state: WrapState=None):
 def is_value_scope(config: Config):
     "Check if abbreviation should be expanded in CSS value context"
     if config.context:
-        return config.context['name'] == CSSAbbreviationScope.Value or not config.context['name'].startswith('@@')
+        name = config.context.get('name', '')
+        return name == CSSAbbreviationScope.Value or not name.startswith('@@')
 
     return False
 
@@ -333,11 +334,11 @@ def get_snippets_for_scope(snippets: list, config: Config):
     "Returns snippets for given scope"
 
     if config.context:
-        if config.context['name'] == CSSAbbreviationScope.Section:
+        if config.context.get('name') == CSSAbbreviationScope.Section:
             return [s for s in snippets if s.type == CSSSnippetType.Raw]
 
 
-        if config.context['name'] == CSSAbbreviationScope.Property:
+        if config.context.get('name') == CSSAbbreviationScope.Property:
             return [s for s in snippets if s.type == CSSSnippetType.Property]
 
     return snippets
